@@ -31,6 +31,31 @@ Proof.
   destruct (excl_update tm r (io_consumed (inst_update tm r c [e] i0)) more) as [[[a b] ev'] lg]. reflexivity.
 Qed.
 
+(* ---- lifted to whole frames (Proofs/FrameLiftP.v): the evaluation sequence of ContextInstances::update ---- *)
+From BEI Require Import Model.Frame Spec.Events Spec.ReadSpec Proofs.StateP Proofs.ActionP Proofs.InstanceP Proofs.ConsumeP Proofs.RegistryP Proofs.FanoutP Proofs.FrameLiftP.
+Theorem C14_frame_fanout : forall sc w f l1 cx p ents i l2,
+  reg_inv sc w -> w_reg w = l1 ++ GShared cx p ents i :: l2 ->
+  let tm := frame_time f in
+  let c1 := end_consumed (update_state (f_raw f)) (evaluations tm (f_raw f) (update_state (f_raw f)) l1) in
+  let seg := inst_evals cx ents tm (f_raw f) c1 i in
+  frame_evals w f = evaluations tm (f_raw f) (update_state (f_raw f)) l1 ++ seg ++
+                    evaluations tm (f_raw f) (end_consumed c1 seg) l2 /\
+  (forall e, In e seg ->
+     (forall e1 e2, In e1 ents -> In e2 ents -> map retarget (to e1 (rec_events e)) = map retarget (to e2 (rec_events e))) /\
+     (forall x, ~ In x ents -> to x (rec_events e) = [])) /\
+  (forall e1 e2, In e1 ents -> In e2 ents ->
+     map retarget (to e1 (flat_map rec_events seg)) = map retarget (to e2 (flat_map rec_events seg))) /\
+  (forall x, ~ In x ents -> to x (flat_map rec_events seg) = []).
+Proof. exact frame_shared_fanout. Qed.
+Theorem C14_recipients_of_every_evaluation : forall tm r gs c e,
+  In e (evaluations tm r c gs) ->
+  exists g, In g gs /\ er_ctx e = g_ctx g /\
+    match g with
+    | GExcl _ _ insts => exists en i, In (en, i) insts /\ er_recipients e = [en] /\ er_dev e = in_pad i /\ In (er_bind e) (in_binds i)
+    | GShared _ _ ents i => er_recipients e = ents /\ er_dev e = in_pad i /\ In (er_bind e) (in_binds i)
+    end.
+Proof. exact evaluations_source. Qed.
+
 Example C14_nonvacuous :
   let d := data_update (1#8) (data_new D1) SFired (V1 (1#2)) in
   emit D1 16 d [3; 5] = Some [mk_event 16 d EStarted 3; mk_event 16 d EStarted 5; mk_event 16 d EFired 3; mk_event 16 d EFired 5] /\
@@ -40,3 +65,5 @@ Proof. split; [reflexivity|]. split; [repeat constructor; simpl; intuition lia |
 Print Assumptions C14_each_holder_once.
 Print Assumptions C14_identical_payload.
 Print Assumptions C14_recipients.
+Print Assumptions C14_frame_fanout.
+Print Assumptions C14_recipients_of_every_evaluation.
